@@ -21,6 +21,7 @@ import DimModel.Lib.DatasetInterp
 import DimModel.Lib.InterpLike
 import DimModel.Driver.ExtRed
 import DimModel.Driver.ExtCache
+import DimModel.Driver.ExtMulti
 import DimModel.Driver.ExtC14Ops
 import DimModel.Driver.ExtC14Ops3
 open Lean
@@ -510,7 +511,7 @@ def handle (op : String) (req : Json) : P (List (String × Json)) := do
       | _ => match dsOpExt3 fn req with | .ok (some g) => g ds others | _ => .error .other
     pure [("lib", encExcept encDs r)]
   | "redx" => handleRedX req
-  | _ => match handleCache op req with | some r => r | none => throw s!"unknown op {op}"
+  | _ => match (handleCache op req).orElse (fun _ => handleMulti op req) with | some r => r | none => throw s!"unknown op {op}"
 
 def answer (line : String) : String :=
   match Json.parse line with
